@@ -486,7 +486,8 @@ class FileIndex(object):
     @classmethod
     def _to_raw(cls, data):
         time_sec = data['time']
-        idx = np.isnan(time_sec)
+        # Times that do not fit below the "invalid" marker value are stored as invalid, as the indexer does.
+        idx = np.isnan(time_sec) | (time_sec >= Timestamp._INVALID)
         # Ignore `RuntimeWarning: invalid value encountered in cast` since we want the NaN to be cast to int.
         np.seterr(invalid="ignore")
         raw_data = data[['time', 'type', 'offset']].astype(dtype=cls._RAW_DTYPE)
